@@ -18,12 +18,13 @@ def seeded_table():
         meta = json.load(open(os.path.join(ROOT, "seeded", pid, "meta.json")))
         r = res.get(pid, {})
         checks = r.get("checks", {})
-        own = checks.get(pid, {})
+        prop = pid[:3]
+        own = checks.get(prop, {})
         own_txt = "—"
         if own:
             v = own.get("verdict") or []
             own_txt = ("VIOLATION" + (" (no-failing-input-found)" if v and "no-failing-input-found" in v[0] else "")) if own.get("exit") == 1 else ("pass (exit %s)" % own.get("exit"))
-        others = sorted(c for c, d in checks.items() if c != pid and d.get("exit") == 1)
+        others = sorted(c for c, d in checks.items() if c != prop and d.get("exit") == 1)
         infra = sorted(c for c, d in checks.items() if d.get("exit") not in (0, 1))
         other_txt = ", ".join(others) if others else ("none" if len(checks) > 1 else "not run")
         if infra:
